@@ -402,7 +402,7 @@ def bool_operand_lane(ctx, rng, select, keys_fn, extra_case=None, profile=None):
     return n
 
 
-def nullable_key_lane(ctx, rng, select, keys_fn, extra_case=None, kinds=None):
+def nullable_key_lane(ctx, rng, select, keys_fn, extra_case=None, kinds=None, null_items=False):
     """eq / ne between a NULLable column of every kind (GUID, date, string, integer, date-time, boolean) and a
     literal, either operand order, plain and under not / not-and / not-or / or: a backend may build the negated
     or the reversed comparison by another route than the plain one, and only rows holding NULL tell."""
@@ -418,6 +418,12 @@ def nullable_key_lane(ctx, rng, select, keys_fn, extra_case=None, kinds=None):
         for op in ("ne", "eq"):
             atoms += [("cmp", op, c, v), ("cmp", op, v, c)]
         atoms += [("cmp", "in", c, T.lst(v)), ("cmp", "ne", c, ("lit", "null", "null")), ("cmp", "eq", c, ("lit", "null", "null"))]
+        if null_items:
+            # a null literal AMONG the items: membership is UNKNOWN for a value that equals no item, which
+            # only a negation around it shows
+            nul = ("lit", "null", "null")
+            atoms += [("cmp", "in", c, T.lst(v, nul)), ("cmp", "in", c, T.lst(nul, v)), ("cmp", "in", c, T.lst(nul)),
+                      ("cmp", "in", v, T.lst(c, nul))]
         for x in atoms:
             for t in (x, ("un", "not", x), ("un", "not", ("bool", "and", x, other)), ("un", "not", ("bool", "or", other, x)),
                       ("bool", "or", x, other), ("un", "not", ("un", "not", x)),
